@@ -190,7 +190,7 @@ theorem exclude_conj_aux (S : LeafSpec ev G) (x : String)
   have := intersectionF_sound S hgx h
   exact ⟨this.1, by rw [this.2, hsem]⟩
 
-/-! ### the tree semantics against poetry's own `validate` -/
+/-! ### the leaves of a marker tree -/
 
 mutual
 def M.leaves : M → List Leaf
@@ -204,31 +204,6 @@ def M.leavesList : List M → List Leaf
   | m :: ms => M.leaves m ++ M.leavesList ms
 end
 
-mutual
-theorem validate_eq_sem (E : Env) (ev : Leaf → Bool) (m : M)
-    (hl : ∀ l ∈ M.leaves m, Leaf.validate l E = .ok (ev l)) :
-    M.validate E m = .ok (M.sem ev m) := by
-  cases m with
-  | any => simp [M.validate, M.sem]
-  | empty => simp [M.validate, M.sem]
-  | leaf l => simpa [M.validate, M.sem] using hl l (by simp [M.leaves])
-  | multi ms =>
-    simp only [M.validate, M.sem]
-    exact (validate_eq_semList E ev ms (by simpa [M.leaves] using hl)).1
-  | union ms =>
-    simp only [M.validate, M.sem]
-    exact (validate_eq_semList E ev ms (by simpa [M.leaves] using hl)).2
-theorem validate_eq_semList (E : Env) (ev : Leaf → Bool) (ms : List M)
-    (hl : ∀ l ∈ M.leavesList ms, Leaf.validate l E = .ok (ev l)) :
-    M.validateAll E ms = .ok (M.semAll ev ms) ∧ M.validateAny E ms = .ok (M.semAny ev ms) := by
-  cases ms with
-  | nil => simp [M.validateAll, M.validateAny, M.semAll, M.semAny]
-  | cons m rest =>
-    have h1 := validate_eq_sem E ev m (fun l h => hl l (by simp [M.leavesList, h]))
-    have h2 := validate_eq_semList E ev rest (fun l h => hl l (by simp [M.leavesList, h]))
-    simp only [M.validateAll, M.validateAny, M.semAll, M.semAny, h1]
-    cases hb : M.sem ev m <;> simp [h2.1, h2.2]
-end
 
 /-! ### `M.beq` preserves the variables mentioned -/
 
